@@ -77,14 +77,24 @@ def run(ctx):
     coffprog = [{"k": "cfg", "mn": "FORMAT", "s": "WCOFF"}, {"k": "bits", "v": 32}, {"k": "global", "names": ["_start"]}, {"k": "cfg", "mn": "SECTION", "s": ".text"},
                 {"k": "label", "nm": "_start"}, {"k": "ins", "mn": "MOV", "ops": [{"t": "r", "w": 32, "n": 0}, {"t": "r", "w": 32, "n": 3}]}, {"k": "ins", "mn": "RET", "ops": []}]
     texts = {"flat": render.program(flatprog).encode(), "coff": render.program(coffprog).encode(), "empty": b"",
-             "parseerr": b"\tMOV\tAX, 1\n\tMOV\tAX,,\n\tHLT\n", "crash": b"\tINT\t256\n"}
+             "parseerr": b"\tMOV\tAX, 1\n\tMOV\tAX,,\n\tHLT\n"}
     base_lines = render.program(flatprog).encode().split(b"\n")[:-1]
     # API reference bytes for each good text
     R = flow.Runner(ctx)
     refid = {}
     for k in ("flat", "coff", "empty"):
         refid[k] = R.add([], src=texts[k].decode(), notrace=True)
+    # a source that makes the assembler die abnormally, if the tree under test has one (classified by actually running it)
+    cand = [b"\tINT\t256\n", b"A\tEQU\tA+1\n\tDB\tA\n", b"\tINT\tAX\n"]
+    candid = [R.add([], src=c.decode(), notrace=True) for c in cand]
     R.run()
+    crash_src = None
+    for c, i in zip(cand, candid):
+        if R.end(i).get("status") in ("panic", "signal", "timeout") or (R.end(i).get("status") == "exit" and R.end(i).get("exit") not in (0,)):
+            crash_src = c
+            break
+    if crash_src is not None:
+        texts["crash"] = crash_src
     api = {k: bytes.fromhex(R.end(i).get("hex", "")) for k, i in refid.items()}
     events = []
     eid = [0]
@@ -123,7 +133,7 @@ def run(ctx):
     nsit = 0
     for nargs in (0, 1, 2, 3):
         for flag in ("", "-v"):
-            for src in ("missing", "dir", "empty", "flat", "coff", "parseerr", "crash"):
+            for src in ("missing", "dir", "empty", "flat", "coff", "parseerr") + (("crash",) if "crash" in texts else ()):
                 for dst in ("absent", "garbage", "nodir", "isdir"):
                     d = os.path.join(work, "s%d" % nsit)
                     os.makedirs(d)
